@@ -241,12 +241,27 @@ type runObs struct {
 	obs       host.Obs
 	ticks     int
 	evs       []event
+	unbalanced string // the runtime was not back in its initial state after the run
 }
 
-func runProgram(src string, L uint64, n int) runObs {
+// sweeper runs one program under many outermost limits.  The machine (runtime
+// + libraries + compiled chunk) is reused from one limit to the next as long as
+// the previous run left it pristine: context stack back at the root, root
+// context live and unused; otherwise a new one is made.
+type sweeper struct {
+	src  string
+	m    *host.Machine
+	fn   rt.Value
+	evs  []event
+	bad  string // compile error
+}
+
+func (sw *sweeper) fresh() {
+	if sw.m != nil {
+		sw.m.Close()
+	}
 	m := host.NewMachine(false)
-	defer m.Close()
-	var evs []event
+	sw.m = m
 	f := m.R.SetEnvGoFunc(m.R.GlobalEnv(), "ev", func(t *rt.Thread, c *rt.GoCont) (rt.Cont, error) {
 		a := c.Etc()
 		e := event{ticks: m.Ticks}
@@ -259,13 +274,54 @@ func runProgram(src string, L uint64, n int) runObs {
 			}
 		}
 		e.args = append([]rt.Value{}, a...)
-		evs = append(evs, e)
+		sw.evs = append(sw.evs, e)
 		return c.Next(), nil
 	}, 0, true)
 	rt.SolemnlyDeclareCompliance(rt.ComplyCpuSafe|rt.ComplyMemSafe|rt.ComplyIoSafe|rt.ComplyTimeSafe, f)
+	clos, err := m.R.CompileAndLoadLuaChunk("nest", []byte(sw.src), rt.TableValue(m.R.GlobalEnv()))
+	if err != nil {
+		sw.bad = err.Error()
+		return
+	}
+	sw.fn = rt.FunctionValue(clos)
+}
+
+// pristine: what the runtime looks like before any run.
+func (sw *sweeper) pristine() string {
+	st := observeStack(sw.m.R)
+	if len(st) != 1 {
+		return fmt.Sprintf("context stack has %d contexts after the outermost CallContext returned: %s", len(st), stackStr(st))
+	}
+	if st[0].Status != 0 || st[0].Due {
+		return "root context: " + st[0].String()
+	}
+	return ""
+}
+
+func (sw *sweeper) close() {
+	if sw.m != nil {
+		sw.m.Close()
+	}
+}
+
+func (sw *sweeper) run(L uint64, n int) runObs {
+	if sw.m == nil {
+		sw.fresh()
+	}
+	if sw.bad != "" {
+		return runObs{layers: make([]layerObs, n+1), obs: host.Obs{Status: "compile", Err: sw.bad}, leafPos: -1}
+	}
+	m := sw.m
+	m.Trace, m.Ticks, sw.evs = nil, 0, nil
 	def := &rt.RuntimeContextDef{HardLimits: rt.RuntimeResources{Cpu: L}}
-	o := m.Exec("nest", src, nil, def)
+	o := m.Call(sw.fn, nil, def)
+	evs := sw.evs
 	ro := runObs{layers: make([]layerObs, n+1), obs: o, ticks: m.Ticks, evs: evs, leafPos: -1}
+	ro.unbalanced = sw.pristine()
+	if ro.unbalanced != "" || o.Status == "gopanic" {
+		sw.m.Close()
+		sw.m = nil
+	}
 	for i, e := range evs {
 		switch e.tag {
 		case "leaf":
@@ -326,6 +382,9 @@ func checkRun(p program, L uint64, ro runObs) (vs []bviol) {
 	if ro.obs.Status == "gopanic" || ro.obs.Status == "compile" {
 		add("host-"+ro.obs.Status, "%s", ro.obs.Err)
 		return
+	}
+	if ro.unbalanced != "" {
+		add("stack-unbalanced", "%s", ro.unbalanced)
 	}
 	// no arrangement does more work than the outermost limit allows
 	if uint64(ro.ticks) > L {
@@ -535,7 +594,6 @@ func checkRun(p program, L uint64, ro runObs) (vs []bviol) {
 
 func allPrograms() []program {
 	var ps []program
-	var rec func(nest []int, depth int)
 	w := len(wrappers)
 	for depth := 0; depth <= 3; depth++ {
 		total := 1
@@ -554,7 +612,6 @@ func allPrograms() []program {
 			}
 		}
 	}
-	_ = rec
 	return ps
 }
 
@@ -583,8 +640,10 @@ func partBFamilies(tier string) []*core.Family {
 			seen := map[string]string{}
 			sigs := map[string]struct{}{}
 			var trans uint64
+			sw := &sweeper{src: src}
+			defer sw.close()
 			for _, L := range grid {
-				ro := runProgram(src, L, len(p.nest))
+				ro := sw.run(L, len(p.nest))
 				trans++
 				for _, v := range checkRun(p, L, ro) {
 					if _, ok := seen[v.clause]; !ok {
